@@ -5,6 +5,11 @@ HERE = os.path.dirname(os.path.dirname(os.path.abspath(__file__)))
 
 # id -> (technique, level text, level note, design ref)
 CHECKS = {
+ "C18": (
+  "hypothesis PBT over generated pedigrees/states: Gibbs vector vs exact full conditional of an independently enumerated joint, MH ordered-state detailed balance, forced-index extraction of the parental swap acceptance (.py_func with np.random replaced), cache-content audit",
+  "Exploration: generated pedigrees (founders/duos/trios/selfing/multi-generation, random labelling, mixed ploidy 2/4[/6], balanced/unbalanced/clonal tau, lambda, errors, unequal read sets padded as call-pedigree pads) with a random joint state, target and allele: gibbs_probabilities equals the normalised joint over the allele options, metropolis_hastings_probabilities is a distribution in detailed balance with it, pair_allele_swap_step's acceptance equals min(1, pi(G')/pi(G)) and restores/applies the state correctly, and every entry left in a caller-supplied likelihood cache is that sample's own likelihood.",
+  "Joint = prod_i L_ref x P_ref(g_i | parents) with P_ref by chromosome-copy enumeration (vf/ref/pedigree.py); pedigrees <= 6 individuals, <= 4 haplotypes; states with zero joint probability skipped.",
+  "DESIGN.md §4 C18"),
  "C01": (
   "hypothesis-generated instances + exhaustive enumeration of all states per instance; exact transition-kernel extraction (.py_func with random_choice / np.random.rand replaced) checked for lumped detailed balance against an independent reference posterior; recorder-based history check of the sampler orchestration",
   "Exploration: for each generated instance every unordered genotype is enumerated and the exact move distribution of every state is extracted for the mutation sub-step at every SNV, recombination and dosage moves on every interval (incl. full length) and the temperature exchange; row sums, lumped detailed balance w.r.t. (L x P)^T from the reference model, independence of haplotype order, successor-likelihood identities; plus _denovo_assembler histories with recorded move arguments (temperature per chain, carried llk, adjacent-temperature swaps, trace llk).",
